@@ -2,7 +2,7 @@
 # usage: tools_mut.sh <prop> <tier> <python-replace-old> <python-replace-new> <file>
 # applies a textual mutation to /repo, runs the check, reverts.
 prop=$1; tier=$2; old=$3; new=$4; file=$5
-python3 - "$old" "$new" "/repo/$file" <<'PY'
+python3 - "$old" "$new" "${REPO:-/repo}/$file" <<'PY'
 import sys
 old,new,p=sys.argv[1:4]
 s=open(p).read()
@@ -11,6 +11,6 @@ s=s.replace(old,new,1)
 open(p,'w').write(s)
 PY
 [ $? -eq 0 ] || exit 3
-(cd /repo && go build ./... ) || { git -C /repo checkout -- .; echo BUILD-FAIL; exit 3; }
-/verif/bin/vcheck -p $prop -tier $tier 2>&1 | grep -v "^harness\|^  " | tail -8
-git -C /repo checkout -- .
+(cd ${REPO:-/repo} && go build ./... ) || { git -C ${REPO:-/repo} checkout -- .; echo BUILD-FAIL; exit 3; }
+/verif/bin/vcheck -repo ${REPO:-/repo} -p $prop -tier $tier 2>&1 | grep -v "^harness\|^  " | tail -8
+git -C ${REPO:-/repo} checkout -- .
